@@ -35,6 +35,8 @@ func init() {
 
 		"time.Now":           stubTimeNow,
 		"time.Sleep":         stubTimeSleep,
+		"(*sync.Pool).Get":   stubPoolGet,
+		"(*sync.Pool).Put":   stubPoolPut,
 		"(time.Time).Format": stubOpaqueStr,
 		"(time.Time).String": stubOpaqueStr,
 
@@ -634,6 +636,55 @@ func stubOnceDo(ex *Exec, fn *ssa.Function, args []Value) []Value {
 	p.obj.set(p.off, ex.ts.Const(32, 1))
 	ex.callValue(args[1], nil, nil)
 	return nil
+}
+
+// sync.Pool: a legal and, for aliasing questions, the least forgiving behaviour - Get hands back
+// the item most recently Put (otherwise calls New); nothing is ever dropped.
+func poolItems(ex *Exec, v Value) (*Obj, int) {
+	p, ok := v.(PtrV)
+	if !ok || p.obj == nil {
+		ex.rtPanic("nil pointer dereference", "sync.Pool")
+	}
+	return p.obj, p.off
+}
+
+func stubPoolGet(ex *Exec, fn *ssa.Function, args []Value) []Value {
+	o, off := poolItems(ex, args[0])
+	key := poolKey{o, off}
+	if ex.pools == nil {
+		ex.pools = map[poolKey][]Value{}
+	}
+	if l := ex.pools[key]; len(l) > 0 {
+		v := l[len(l)-1]
+		ex.pools[key] = l[:len(l)-1]
+		return []Value{v}
+	}
+	// field New func() any
+	pt := fn.Signature.Recv().Type().(*types.Pointer).Elem().Underlying().(*types.Struct)
+	for i := 0; i < pt.NumFields(); i++ {
+		if pt.Field(i).Name() == "New" {
+			nf := o.get(off + ex.fieldOffset(pt, i))
+			if f, ok := nf.(FuncV); ok && f.fn != nil {
+				return ex.callValue(f, nil, nil)[:1]
+			}
+		}
+	}
+	return []Value{IfaceV{}}
+}
+
+func stubPoolPut(ex *Exec, fn *ssa.Function, args []Value) []Value {
+	o, off := poolItems(ex, args[0])
+	if ex.pools == nil {
+		ex.pools = map[poolKey][]Value{}
+	}
+	key := poolKey{o, off}
+	ex.pools[key] = append(ex.pools[key], args[1])
+	return nil
+}
+
+type poolKey struct {
+	o   *Obj
+	off int
 }
 
 func (ex *Exec) timeType() types.Type { return ex.pkgType("time", "Time") }
